@@ -110,6 +110,8 @@ func C13(c *Ctx) {
 		"A <- B \"a\\qc\"\nB <- 'b'\n", "A <- B \"unterminated", "A <- B\nB \"bad\\q name\" <- 'b'\n", "A <- B 'x\xffy'\nB <- 'b'\n", "A <- B \"\\u12\" C\nB <- 'b'\nC <- 'c'\n", "A <- b:B [\\q]\nB <- 'b'\n",
 		// runes whose case folding crosses the Basic Latin boundary
 		"{\npackage p\n}\nA <- [K\u017f\u0130\u0131\u212a]i [\u212a-\u212b]i '\u017f'i \"\u212a\"i [^\u0130]i [\u00b5\u03bc\u1e9e\u00df]i\n",
+		// code blocks that are empty up to blank space and line ends
+		"{\npackage p\n}\nA <- 'a' {\n\n}\n", "{\npackage p\n}\nA <- 'a' {\r\n\n}\n", "{\npackage p\n}\nA <- 'a' {}\n", "{\npackage p\n}\nA <- 'a' {\n} B\nB <- &{\n\n} #{ \n } !{\t}\n", "{\n\n}\nA <- 'a'\n", "{}\nA <- 'a' { \r }\n",
 		// a dash next to a Unicode class escape inside a class
 		"A = [0-9_-\\pL]\n", "A = [a-\\pL]\n", "A = [a\\pL-z]\n", "A = [\\pL-]\n", "A = [-\\pL]\n", "A = [a-\\p{Lu}-z]i\n", "A = [^\\p{Nd}-\\p{Lu}]\n",
 		"A = 'ab'\n", "A = ''\n", "A = \"\\U00110000\"\n", "A = \"\\ud800\"\n", "A = `unterminated\n", "A = \"a\" /* unterminated\n", "A = \"a\" { if x { }\n", "A = %{L\n", "A = \"a\" //{L,} \"b\"\n", "A = \"a\" //{} \"b\"\n", "{\npackage p\n}\nA <- &A 'a' / 'b'\n", "{\npackage p\n}\nA <- !. / W A\nW <- [ \\t]*\n",
